@@ -429,6 +429,39 @@ def _fold(ctx, model):
            "keep it: a constant that folds to 0 is dropped, which is right for a "
            "sum but turns x*(3 + -3)*y into x*y (the same function folds "
            "products)")
+    # every mapped child that ends up among the result's operands unfolded
+    # has been asked, *as mapped*, whether it is a constant (and either is not
+    # one or could not be evaluated).  A child kept on the strength of a test
+    # made before mapping -- or of no test -- may well be a constant after
+    # mapping (2*5 is not a literal, its folded form 10 is): the result then
+    # holds several constant operands.
+    unclassified = []
+    for ps in pss:
+        if ps.term != "return":
+            continue
+        kept = []
+
+        def note(t, kept=kept):
+            if t[0] == "rec":
+                kept.append(t)
+            return False
+        contains(ps.retval, note)
+        asked = []
+        for _, pol, v in ps.conds:
+            if isinstance(v, tuple):
+                contains(v, lambda t: t[0] == "call" and isinstance(t[1], str)
+                         and t[1].split(".")[-1] == "is_constant" and t[1] !=
+                         "is_constant" and asked.append(t[2][0]) and False)
+        for k in kept:
+            if k not in asked:
+                unclassified.append(k)
+    ctx.ob("P/fold/kept-operands-classified-after-mapping", not unclassified, loc,
+           "every operand kept unfolded was classified by self.is_constant() "
+           "after it had been mapped" if not unclassified else
+           "fold() has a way out on which mapped children go into the result "
+           "without self.is_constant() having been asked about the *mapped* "
+           "child: operands that only become constants by folding (2*5 + 3*4 + x) "
+           "stay apart, so the folded sum has more than one constant operand")
     ok = shapes == {"constant-first", "nonconstants-only"}
     ctx.ob("P/fold/result", ok, loc,
            "result = constructor(one folded constant, *non-constants) or "
@@ -530,6 +563,67 @@ def _folders(ctx, model):
                "IdentityMapper.map_common_subexpression")
 
 
+def _direct_calls_class_generic(ctx, model, dm):
+    """A handler that another handler calls *directly* (self.map_product(v)
+    instead of self.rec(v)) is not protected by dispatch: it gets whatever v
+    is.  When v comes out of a smart constructor (flattened_product of one
+    factor is that factor), its class is open, so the called handler must not
+    rebuild what it was handed under a fixed class name -- it has to keep the
+    class of its argument (type(expr), or the class-keeping base handler)."""
+    from ..sharedstate import _depends_on
+    node_classes = {n.name for n in model.nodes.all()}
+    n_sites = 0
+    for name, mem in dm.members.items():
+        if mem.kind != "func":
+            continue
+        fn = mem.node
+        params = [a.arg for a in fn.args.args]
+        for call in ast.walk(fn):
+            if not (isinstance(call, ast.Call) and isinstance(
+                    call.func, ast.Attribute) and isinstance(
+                    call.func.value, ast.Name) and call.func.value.id == "self"
+                    and call.func.attr.startswith("map_") and call.args):
+                continue
+            arg = call.args[0]
+            if isinstance(arg, ast.Name) and len(params) > 1 and \
+                    arg.id == params[1]:
+                continue            # the node this handler was dispatched on
+            if isinstance(arg, ast.Call) and isinstance(arg.func, ast.Name) \
+                    and arg.func.id in node_classes:
+                continue            # a node built on the spot: class known
+            target = model.lookup(dm, call.func.attr)
+            if target is None or target.kind != "func":
+                continue
+            n_sites += 1
+            tfn = target.node
+            tparams = [a.arg for a in tfn.args.args]
+            if len(tparams) < 2:
+                continue
+            node_p = tparams[1]
+            fixed = []
+            for c in ast.walk(tfn):
+                if isinstance(c, ast.Call) and isinstance(c.func, ast.Name) and \
+                        c.func.id in node_classes and c.args:
+                    deps = set()
+                    for a in c.args:
+                        deps |= _depends_on(tfn, a)
+                    if node_p in deps:
+                        fixed.append(c)
+            ctx.ob(f"S/{dm.name}/{name}->{call.func.attr}/keeps-class-of-its-argument",
+                   not fixed, dm.module.loc(call),
+                   f"{name} hands {call.func.attr} a value of open class "
+                   f"({ast.unparse(arg)[:60]}), and {call.func.attr} keeps the "
+                   "class of what it is given" if not fixed else
+                   f"{dm.name}.{name} calls self.{call.func.attr}("
+                   f"{ast.unparse(arg)[:60]}) directly; the argument need not be "
+                   f"the node class the handler is named after (a smart "
+                   "constructor returns its only operand as it is), but "
+                   f"{call.func.attr} rebuilds its argument's operands as "
+                   f"{fixed[0].func.id}(...): a sum raised to the power 1 comes "
+                   "back as the *product* of its terms")
+    ctx.floor("DistributeMapper direct handler calls", n_sites, 1)
+
+
 def _distribute(ctx, model):
     from ..rules import handler_summaries, mapper_node_pairs
     dm = model.cls("pymbolic.mapper.distributor:DistributeMapper")
@@ -594,6 +688,7 @@ def _distribute(ctx, model):
                "expands to a sum only after mapping), so the test misses it or "
                "admits the wrong class")
     ctx.floor("DistributeMapper handlers", n_handlers, 4)
+    _direct_calls_class_generic(ctx, model, dm)
     _collector_accepts_distributor_terms(ctx, model, dm)
     _products_redistributed(ctx, model, dm)
     _power_shape_cases(ctx, model, dm)
